@@ -1,12 +1,13 @@
 (* Property C10 — staking and binding deposits follow their lifecycle exactly.
-   Only statements here; proofs are in Ledger/PendingProofs.v.
+   Only statements here; proofs are in Ledger/PendingProofs.v and Ledger/PendingProofs2.v.
    Model: Ledger/Pending.v (deposit rows of AddCredits / updateMinedBalance / Rollback, the history
    queries, eligibility of getUtxosExcludeBindingAndStaking, sequence assignment of constructTxIn /
    addTxIn, mass-core's CHECKSEQUENCEVERIFY operand and sequence-lock rule). *)
 From Coq Require Import List ZArith NArith Bool.
 Import ListNotations.
 Open Scope Z_scope.
-Require Import MW.Ledger.Model MW.Ledger.Spec MW.Ledger.Run MW.Ledger.Pending MW.Ledger.PendingProofs.
+Require Import MW.Ledger.Model MW.Ledger.Spec MW.Ledger.Run MW.Ledger.WF MW.Ledger.Pending MW.Ledger.PendingProofs.
+Require Import MW.Ledger.Proofs MW.Ledger.Proofs4 MW.Ledger.PendingProofs2.
 
 (* ---- every deposit appears exactly once, with the right data, withdrawn iff spent *)
 
@@ -15,7 +16,9 @@ Require Import MW.Ledger.Model MW.Ledger.Spec MW.Ledger.Run MW.Ledger.Pending MW
    Given that, the histories the wallet reports are exactly its deposit credits, each once, with the
    credit's amount / address / frozen period / height, withdrawn iff spent.  The link from credits to the
    best chain (a credit per output paying the wallet, spent iff a best-chain transaction spends it) is
-   C01's theorem about the same [wstate]. *)
+   C01's theorem about the same [wstate].
+   This statement is relative to [rows_ok]; it is now subsumed by C10_history_exact_reachable /
+   C10_history_exact_chain below, which hold unconditionally in every reachable state. *)
 Theorem C10_history_exact :
   forall n s w binding excl,
     rows_ok (credits (ps_w s)) (ps_game s) -> cred_unique (credits (ps_w s)) ->
@@ -33,9 +36,8 @@ Print Assumptions C10_history_exact.
 
 (* [rows_ok] is kept by every mined record (AddRelevantTx: updateMinedBalance flips the rows of the
    deposits it spends, AddCredits adds the rows of the deposits it creates); key uniqueness of the
-   credits is C01's invariant and enters as a premise.  The same for Rollback is NOT proved as an
-   invariant (it needs C01's block-record invariant); C10_rollback_rows_partial is the step lemma, the
-   correspondence check compares the buckets themselves across reorganisations. *)
+   credits is C01's invariant and enters as a premise.  Subsumed by C10_rows_invariant below (every
+   reachable state, connects AND Rollback, key uniqueness proved). *)
 Theorem C10_history_rows_connect_partial :
   forall p h bid recs m m', m_apply_recs p h bid m recs = Some m' ->
     rows_ok (credits (m_w m)) (m_game m) ->
@@ -52,7 +54,8 @@ Proof. exact p_apply_recs_mined. Qed.
 Print Assumptions C10_history_rows_connect_is_the_store.
 
 (* Rollback of a withdrawal: exactly the rows of the deposits the rolled-back transaction had spent flip
-   back to "not withdrawn"; no other row changes *)
+   back to "not withdrawn"; no other row changes.  Step lemma; the invariant across whole Rollbacks is
+   C10_rows_invariant below. *)
 Theorem C10_rollback_rows_partial :
   forall idx cs g tid h g', unwithdraw_ins cs g tid h idx = POk g' ->
     (forall x, In x g' -> In x g \/ exists i c b, In i idx /\ debit_of cs tid i h = Some c /\ game_kind (c_class c) = Some b /\
@@ -62,6 +65,100 @@ Theorem C10_rollback_rows_partial :
     (NoDup g -> NoDup g').
 Proof. exact unwithdraw_ins_effect. Qed.
 Print Assumptions C10_rollback_rows_partial.
+
+(* ---- the row invariant in EVERY reachable state of EVERY well-formed history
+
+   Histories: PvOwner (address issued), PvAttach / PvDetach (the node's best chain moves), PvProcess b
+   (processConnectedBlock: connect, or Rollback to the fork point and connect the new branch, one commit
+   or no change), PvReceive (an unconfirmed transaction is delivered), PvRestart.  [wf_phistory g h]
+   (Ledger/PendingProofs2.v) is C01's [wf_history_gen] for these events — the node's chain is a [wf_chain]
+   after every event, an address is issued (at any time) before an attached block pays it, a block id
+   names one block, processed blocks were attached — plus: a transaction id names one transaction.
+   Delivered unconfirmed transactions and restarts are unconstrained.  The state is the one after ANY
+   prefix h1 of the history.
+
+   The invariant is [rows_wk]: [rows_ok] with its third clause weakened, because [rows_ok] itself is
+   FALSE in reachable states (C10_rows_ok_reachable_refuted): Rollback's coinbase branch deletes the
+   credit of a coinbase transaction that paid a staking/binding script of the wallet but never its
+   deposit row.  [rows_wk U own cs g]: every deposit credit has its row with withdrawn = spent; a row
+   with the key of a credit is that credit's row; a row WITHOUT a credit is the unwithdrawn row of a
+   coinbase deposit of a block of the history; no row twice.  Together with key uniqueness of the
+   credits (NoDup of (tx, height, vout)), non-zero heights, and the ledger being C01's [L] of a
+   well-formed chain made of blocks of the history. *)
+Theorem C10_rows_invariant :
+  forall p a3fix g h1 h2, wf_phistory g (h1 ++ h2) ->
+    let q := prun p a3fix g h1 in
+    let s := h_store (q_h q) in
+    rows_wk (g :: pblocks_of_history (h1 ++ h2)) (own_of (q_own q)) (credits (ps_w s)) (ps_game s) /\
+    cred_unique (credits (ps_w s)) /\
+    (forall c, In c (credits (ps_w s)) -> c_height c <> 0) /\
+    NoDup (ps_game s) /\
+    exists c, wf_chain c /\ incl c (g :: pblocks_of_history (h1 ++ h2)) /\ ps_w s = L p (own_of (q_own q)) c.
+Proof. exact rows_invariant. Qed.
+Print Assumptions C10_rows_invariant.
+
+(* plain [rows_ok] holds in every reachable state when no coinbase transaction of the history carries a
+   staking/binding output *)
+Theorem C10_rows_ok_reachable :
+  forall p a3fix g h1 h2, wf_phistory g (h1 ++ h2) -> no_coinbase_deposit (g :: pblocks_of_history (h1 ++ h2)) ->
+    let s := h_store (q_h (prun p a3fix g h1)) in
+    rows_ok (credits (ps_w s)) (ps_game s).
+Proof. exact rows_ok_reachable. Qed.
+Print Assumptions C10_rows_ok_reachable.
+
+(* ... and fails otherwise: g; address 1 of wallet 1; block 1 = [coinbase tx 1 paying (script 1, 5, staking 2)]
+   attached and processed; detached; block 2 = [coinbase tx 2, standard] attached and processed.  The
+   deposit row of tx 1 is still in the bucket, the only credit is that of tx 2.  (The row is not
+   REPORTED: the history query finds no credit for it and skips it — see the next theorem.) *)
+Theorem C10_rows_ok_reachable_refuted :
+  exists p g evs, wf_phistory g evs /\
+    let s := h_store (q_h (prun p true g evs)) in
+    ~ rows_ok (credits (ps_w s)) (ps_game s) /\
+    ps_game s = [mk_grow 1 false false 1 1 0] /\ map ckey (credits (ps_w s)) = [(2%N, 1, 0%N)].
+Proof. exact rows_ok_reachable_refuted. Qed.
+Print Assumptions C10_rows_ok_reachable_refuted.
+
+(* ---- history exactness, unconditionally: in every reachable state the staking / binding history of
+   wallet w lists exactly its deposit credits (amount, address, frozen period, height of the credit;
+   withdrawn iff the credit is spent; flagged iff a pending spender is registered), each once *)
+Theorem C10_history_exact_reachable :
+  forall p a3fix g h1 h2, wf_phistory g (h1 ++ h2) ->
+    let s := h_store (q_h (prun p a3fix g h1)) in
+    forall n w binding excl,
+      (forall hr, In hr (mined_history n s w binding excl) <->
+        exists c, In c (credits (ps_w s)) /\ c_wallet c = w /\ game_kind (c_class c) = Some binding /\
+                  (excl = true -> is_unspent c = true) /\
+                  (binding = true -> binding_tx_readable n s (c_tx c) (c_height c) = true) /\
+                  hr = hrow_of s c binding) /\
+      NoDup (map (fun hr => (hr_tx hr, hr_height hr, hr_vout hr)) (mined_history n s w binding excl)).
+Proof. exact history_exact_reachable. Qed.
+Print Assumptions C10_history_exact_reachable.
+
+(* the same read against the chain itself: the wallet follows a well-formed chain c of blocks of the
+   history (its ledger is C01's L of c; c is the node's best chain whenever the node's tip was the last
+   block processed successfully), and its histories list exactly the staking/binding outputs of c that
+   pay wallet w — one row per output, with the output's amount, script hash, frozen period (maturity - 1)
+   and block height, shown as withdrawn iff a transaction of c spends the output.  Reorganisations that
+   roll back deposits and withdrawals and re-mine them are histories like any other. *)
+Theorem C10_history_exact_chain :
+  forall p a3fix g h1 h2, wf_phistory g (h1 ++ h2) ->
+    let q := prun p a3fix g h1 in
+    let s := h_store (q_h q) in
+    let own := own_of (q_own q) in
+    exists c, wf_chain c /\ from_g g c /\ incl c (g :: pblocks_of_history (h1 ++ h2)) /\ ps_w s = L p own c /\
+      (forall n w binding excl,
+        (forall hr, In hr (mined_history n s w binding excl) <->
+           exists k, In k (coins_of_chain own c) /\ k_wallet k = w /\ game_kind (k_class k) = Some binding /\
+                     (excl = true -> spent_in c (k_tx k, k_vout k) = false) /\
+                     (binding = true -> binding_tx_readable n s (k_tx k) (k_height k) = true) /\
+                     hr = hrow_of_coin p s c k binding) /\
+        NoDup (map (fun hr => (hr_tx hr, hr_height hr, hr_vout hr)) (mined_history n s w binding excl))) /\
+      (* the side condition on binding rows (GetBindingHistoryDetail re-reads the transaction from the node's
+         block at that height) holds for every deposit whenever the wallet's chain is part of the node's *)
+      (forall n k, wf_chain n -> incl c n -> In k (coins_of_chain own c) ->
+                   binding_tx_readable n s (k_tx k) (k_height k) = true).
+Proof. exact history_exact_chain. Qed.
+Print Assumptions C10_history_exact_chain.
 
 (* ---- excluded from ordinary funds and automatic selection *)
 
@@ -198,4 +295,35 @@ Example C10_example_sequence :
   built_sequence bp 0 (CStaking 2) 2 = 3 /\ required_sequence bp (CStaking 2) 2 = Some 3 /\
   sequence_lock_active 2 3 4 = false /\ sequence_lock_active 2 3 5 = true /\
   csv_ok (Some 3) max_sequence = false.
+Proof. vm_compute. repeat split; reflexivity. Qed.
+
+(* ---- the reachability theorems are not vacuous: the histories above are well formed, and so is a deep
+   reorganisation that rolls back the deposit AND its withdrawal and re-mines both on another branch *)
+Module Ex10r.
+  Import Ex10.
+  Definition full : list pevent := upto4 ++ [PvAttach b5; PvProcess b5; PvDetach; PvAttach b5'; PvProcess b5'].
+  Definition c2 : block := {| b_id := 12; b_prev := 1; b_height := 2; b_txs := [cb 12] |}.
+  Definition c3 : block := {| b_id := 13; b_prev := 12; b_height := 3; b_txs := [cb 13; dep] |}.
+  Definition c4 : block := {| b_id := 14; b_prev := 13; b_height := 4; b_txs := [cb 14] |}.
+  Definition c5 : block := {| b_id := 15; b_prev := 14; b_height := 5; b_txs := [cb 15] |}.
+  Definition c6 : block := {| b_id := 16; b_prev := 15; b_height := 6; b_txs := [cb 16; wd] |}.
+  (* the node drops b5', b4, b3, b2 and follows c2 … c6; the wallet is told about c3, then about c6 only *)
+  Definition to_c3 : list pevent :=
+    full ++ [PvDetach; PvDetach; PvDetach; PvDetach; PvAttach c2; PvAttach c3; PvProcess c3].
+  Definition deep : list pevent := to_c3 ++ [PvAttach c4; PvAttach c5; PvAttach c6; PvProcess c6].
+End Ex10r.
+
+Example C10_example_histories_wf :
+  wf_phistory Ex10.g Ex10r.full /\ wf_phistory Ex10.g Ex10r.deep.
+Proof. split; apply wf_phistory_b_sound; vm_compute; reflexivity. Qed.
+
+(* after the deep reorganisation reached c3: the deposit (rolled back from height 2, where it had been
+   withdrawn and un-withdrawn) is listed once, at its new height 3, not withdrawn, and its old rows are gone;
+   after c6: withdrawn again, by the re-mined withdrawal *)
+Example C10_example_deep_reorg :
+  Ex10.hist Ex10r.to_c3 false = [(10%N, 0%N, 5, 2, 3, false, false)] /\
+  map (fun r => (g_tx r, g_height r, g_withdrawn r)) (ps_game (h_store (q_h (Ex10.sim Ex10r.to_c3)))) = [(10%N, 3, false)] /\
+  Ex10.hist Ex10r.deep false = [(10%N, 0%N, 5, 2, 3, true, false)] /\
+  Ex10.hist Ex10r.deep true = [] /\
+  map (fun r => (g_tx r, g_height r, g_withdrawn r)) (ps_game (h_store (q_h (Ex10.sim Ex10r.deep)))) = [(10%N, 3, true)].
 Proof. vm_compute. repeat split; reflexivity. Qed.
